@@ -97,7 +97,7 @@ SPECS = [
          raises={'*': {'ensures': ["raised('e9') or raised('h1')"]}},
          serves=PROP + ["C02", "C07"]),
     dict(id='S-Repeat', text='A<li tal:repeat="i e4">%s</li>B' % H1,
-         own_names=['i'], probe_values={'4': 'iterable'},
+         own_names=['i'],
          loops={1: {
              'inv': ["local('____index') == rlen() - _i",
                      "S() == acc(_i)",
@@ -115,7 +115,8 @@ SPECS = [
              "visible('i') is visible0('i')",
              "scope_frame('i')",
          ],
-         raises={'*': {'ensures': ["raised('e4') or raised('h1')"]}},
+         raises={'*': {'ensures': ["raised('e4') or raised('h1') or (repeat_failed() and evals(4) == 1 "
+                                   "and holes(1) == 0 and val(4) is not None)"]}},
          serves=PROP + ["C08", "C05"]),
 ]
 
